@@ -1,5 +1,5 @@
 import os
-_RES = {0: 'old', 1: 'row', 2: 'col'}
+_RES = {0: 'old', 1: 'row', 2: 'col', 3: 'old4'}
 KERNELS = {'C10_eval_%s' % n: dict(src='kernels/C10_eval.cpp', flags=['-DNDEBUG', '-DRES=%d' % r, '-DKSUFFIX=_%s' % n]) for r, n in _RES.items()}
 # largest result size (elements) of a program for extents <= e: the evaluator's copy loop, vector fills and the
 # harness' data loops run once per element; they get their own bound, every other loop keeps the small global bound
@@ -26,7 +26,7 @@ if os.environ.get('C10_ALL'):   # measurement mode: every candidate, optional, t
     rs = [int(x) for x in os.environ.get('C10_RES', '1,0,2').split(',')]
     HARNESSES = []
     for r in rs:
-        for fam, progs in (('front', ['transpose', 'flip'] if r else []), ('ev', EV), ('out', [p for p in OUTP if r or p != 'sum']), ('cl', CL)):
+        for fam, progs in (('front', ['transpose', 'flip'] if r in (1, 2) else []), ('ev', EV), ('out', [p for p in OUTP if r in (1, 2) or p != 'sum']), ('cl', CL)):
             for p in progs:
                 HARNESSES.append(_h(fam, p, r, [(e, {}) for e in es], [], optional=True, timeout=int(os.environ.get('C10_TMO', '300')), gate=False))
 else:
